@@ -129,7 +129,8 @@ def applied_once(fx, rep):
     fc = FnCtx(b)
     m = fc.mir
     add = adder(rep, b)
-    ups = fc.calls("InstanceState::update_state")
+    # (a call made inside a closure handed to Option::map / and_then counts where the combinator is called)
+    ups = [(bb, t) for bb, t, inner, kf in fc.calls_with_closures(fx, "InstanceState::update_state")]
     bad_results = []
     for bb, i, s in m.stmts():
         if s.kind == "assign" and s.rv.is_adt("AddChangeResult") and s.rv.agg["variant"] in ("NotAdded", "Rejected"):
